@@ -122,6 +122,11 @@ fn(H2 + ".stream_send", params={"event": _ev.STREAM_EVENTS}, task="app", model_o
        ("C02.h2.headers", "implies(isinstance(event, (InformationalResponse, Response)), (n_emitted('h2') == 1 or n_emitted('h2_refused') >= 1) "
         "and implies(n_emitted('h2') == 1, emitted('h2')[0][0] == 'send_headers' and emitted('h2')[0][1] == event.stream_id "
         "and emitted('h2')[0][2][0] == (b':status', b'%d' % event.status_code) and starts_with_seq(emitted('h2')[0][2][1:], event.headers)))", "C02"),
+       # C02 / C12: a response head h2 refuses (a connection-specific header such as
+       # `connection: keep-alive`, upper-case names ...) is neither delivered nor reported: the
+       # ProtocolError is swallowed as "connection has closed".  A call that returns normally for a
+       # Response on an open stream has put the head on the wire
+       ("C02.h2.head-not-swallowed", "implies(isinstance(event, (InformationalResponse, Response)) and h2_sendable(old(self.connection), event.stream_id), n_emitted('h2') == 1)", "C02,C12"),
        # ... body bytes go to the stream's send buffer unchanged (unless the stream is gone)
        ("C02.h2.body", "implies(isinstance(event, (Body, Data)) and in_map(old(self.stream_buffers), event.stream_id) and sel(old(self.priority.has), event.stream_id), "
         "count_calls('StreamBuffer.push') == 1 and call_args('StreamBuffer.push')[1] == event.data)", "C02,C10"),
@@ -180,6 +185,7 @@ fn(H2 + "._create_stream", params={"request": "obj h2.events:RequestReceived"}, 
        ("C01.h2.request.wiring", "same(call_args('Stream.handle')[0].app, self.app) and same(call_args('Stream.handle')[0].client, self.client) and same(call_args('Stream.handle')[0].server, self.server) "
         "and call_args('Stream.handle')[0].stream_id == request.stream_id "
         "and call_args('Stream.handle')[0].scheme == (('wss' if self.ssl else 'ws') if isinstance(call_args('Stream.handle')[0], WSStream) else ('https' if self.ssl else 'http'))", "C01"),
+       ("C18.mark.on-arrival", "count_calls('WorkerContext.mark_request') == 1", "C18,C15"),
        ("C18.ka.h2.counted", "self.keep_alive_requests >= old(self.keep_alive_requests) + 1", "C18")],
    props=("C04", "C01", "C18"))
 
@@ -212,6 +218,9 @@ fn(H2 + ".__init__", inline=True,
    ensures=[
        ("C18.h2.settings", "self.connection.local_settings.initial_values[lib_h2.settings.SettingCodes.MAX_CONCURRENT_STREAMS] == config.h2_max_concurrent_streams "
         "and self.connection.local_settings.initial_values[lib_h2.settings.SettingCodes.MAX_HEADER_LIST_SIZE] == config.h2_max_header_list_size", "C18"),
+       # ... and the header-list limit also reaches the decoder that enforces it (initial values of
+       # the local settings are advertised but never copied there by h2)
+       ("C18.h2.header-list-enforced", "self.connection.decoder.max_header_list_size == config.h2_max_header_list_size", "C18"),
        ("C18.h2.frame", "self.connection.DEFAULT_MAX_INBOUND_FRAME_SIZE == config.h2_max_inbound_frame_size", "C18"),
        ("H2.init", "not self.closed and self.keep_alive_requests == 0", "C18"),
    ],
